@@ -61,11 +61,15 @@ def step (_ : Unit) (j : Json) : Except String (Unit × Json × List Fired) := d
     let ids ← jnatList j "ids"
     let (c, e) := Lagrange.coefficient mid ids
     let mout := match c, e with
-      | some v, .ok => mkObj [("err", jb false), ("coeff", js (scalarHex v))]
-      | none, .ok => mkObj [("err", jb false), ("coeff", js "model: table index out of range (Go would panic)")]
-      | _, _ => mkObj [("err", jb true), ("coeff", js "")]
+      | some v, .ok => mkObj [("err", jb false), ("coeff", js (scalarHex v)), ("panic", js "")]
+      | none, .ok => mkObj [("err", jb false), ("coeff", js "model: table index out of range (Go would panic)"), ("panic", js "")]
+      | _, _ => mkObj [("err", jb true), ("coeff", js ""), ("panic", js "")]
+    let ipanic := (jstr out "panic").toOption.getD ""
+    if ipanic != "" then
+      -- the routine is total on every list of distinct positive ids containing the member (chain_coefficient_total_and_correct)
+      fired := fired ++ [{ name := "lagrange_coefficient_routine_panicked", detail := mkObj [("mid", jn mid), ("ids", jl (ids.map jn)), ("panic", js ipanic)] }]
     -- spec monitor: an accepted coefficient is the Lagrange basis value at 0: λ·∏(j−i) = ∏ j  (mod N)
-    if !(← jbool out "err") then
+    if ipanic == "" && !(← jbool out "err") then
       let lam := Secp.fromBytes (← jhex out "coeff")
       let js_ := ids.filter (· ≠ mid)
       let num : Int := js_.foldl (fun (a : Int) (x : Nat) => a * x) 1
@@ -167,7 +171,8 @@ def step (_ : Unit) (j : Json) : Except String (Unit × Json × List Fired) := d
         match ams.find? (·.1 == mid) with
         | none => Generated.Err.tss_ErrMemberNotAssigned
         | some (_, Yi, _, _, _, Rn, _, _) =>
-          if kind == "wrongSigner" then Generated.Err.tss_ErrMemberNotAssigned
+          if kind == "trailingByte" then "tss/36"      -- message validation: not a 65-byte signature
+          else if kind == "wrongSigner" then Generated.Err.tss_ErrMemberNotAssigned
           else if signed.contains mid then Generated.Err.tss_ErrAlreadySigned
           else
             let lam := ((Lagrange.coefficient mid ids).1).getD 0
@@ -176,7 +181,7 @@ def step (_ : Unit) (j : Json) : Except String (Unit × Json × List Fired) := d
         signed := signed ++ [mid]
       -- monitors on the implementation's decision
       let good := match ams.find? (·.1 == mid) with
-        | some (_, Yi, _, _, _, Rn, _, _) => acceptPartial secpOps Rn R z c (((Lagrange.coefficient mid ids).1).getD 0) Yi && kind != "wrongSigner"
+        | some (_, Yi, _, _, _, Rn, _, _) => acceptPartial secpOps Rn R z c (((Lagrange.coefficient mid ids).1).getD 0) Yi && kind != "wrongSigner" && kind != "trailingByte"
         | none => false
       if ierr == "" && !good then
         fired := fired ++ [{ name := "wrong_partial_signature_accepted", detail := mkObj [("kind", js kind), ("member", jn mid)] }]
